@@ -589,6 +589,57 @@ def gen_forecast():
         guess = P.SV([P.Sc(f"g{i}") for i in range(k)])
         P.Tr(m, m.method("Bounds", "regularize_initial_guess"), emit_name=f"Bounds_regularize_{k}",
              preset={"self": bounds_self(2, 2), "guess": (guess, [(f"g{i}", "R") for i in range(k)])}).translate()
+    # ---- ForecasterOnePhase.fit: the units in which the optimiser works (since ea995a1).  Statement-for-statement match of the scaling
+    # arithmetic around the curve_fit call (anything else fails closed); each matched statement is emitted as the Gallina term it denotes.
+    fit = m.method("ForecasterOnePhase", "fit")
+    body = [n for n in fit.body if not (isinstance(n, ast.Expr) and isinstance(n.value, ast.Constant))]
+    txt = [ast.unparse(n) for n in body]
+    branch = [n for n in body if isinstance(n, ast.If) and ast.unparse(n.test) == "tau is None"]
+    if len(branch) != 2:
+        raise P.Untranslatable("fit: expected `if tau is None` twice (set-up of the problem, storing of the result)")
+
+    def need(lines, where, *wanted):
+        for w in wanted:
+            if w not in lines:
+                raise P.Untranslatable(f"fit ({where}): statement `{w}` not found")
+    need(txt, "prologue", "m_unit = abs(float(cum_production[-1])) or 1.0", "t_unit = abs(float(time_on_production[-1])) or 1.0",
+         "cum_scaled = np.asarray(cum_production, dtype=np.float64) / m_unit",
+         "fit, covariance = curve_fit(forecast, time_on_production, cum_scaled, np.asarray(p0) / units, bounds=tuple((np.asarray(b) / units for b in bounds)))",
+         "fit = fit * units", "self.time_on_production = time_on_production", "self.cum_production = cum_production")
+    if not (txt.index("cum_scaled = np.asarray(cum_production, dtype=np.float64) / m_unit") < body.index(branch[0]) < [i for i, t_ in enumerate(txt) if t_.startswith("fit, covariance = curve_fit(")][0]
+            < txt.index("fit = fit * units") < body.index(branch[1])):
+        raise P.Untranslatable("fit: scaling, optimiser call and unscaling are not in the expected order")
+    free = [ast.unparse(n) for n in branch[0].body]
+    given = [ast.unparse(n) for n in branch[0].orelse]
+    need(free, "tau free", "units = np.array([m_unit, t_unit])", "bounds = self.bounds.fit_bounds()", "p0 = self.bounds.regularize_initial_guess(p0)")
+    need(given, "tau given", "units = np.array([m_unit])", "bounds = self.bounds.M", "p0 = self.bounds.regularize_initial_guess(p0)")
+
+    def nested_return(stmts, where, args, ret):
+        fd = [n for n in stmts if isinstance(n, ast.FunctionDef) and n.name == "forecast"]
+        if len(fd) != 1 or [a.arg for a in fd[0].args.args] != args:
+            raise P.Untranslatable(f"fit ({where}): nested model function `forecast({', '.join(args)})` not found")
+        rs = [n for n in fd[0].body if not (isinstance(n, ast.Expr) and isinstance(n.value, ast.Constant))]
+        if len(rs) != 1 or not isinstance(rs[0], ast.Return) or ast.unparse(rs[0].value) != ret:
+            raise P.Untranslatable(f"fit ({where}): the model handed to the optimiser is not `{ret}`")
+    nested_return(branch[0].body, "tau free", ["time_on_production", "M", "tau"], "_forecast_cum_onephase(self.rf_curve, time_on_production, M, tau * t_unit)")
+    nested_return(branch[0].orelse, "tau given", ["time_on_production", "M"], "_forecast_cum_onephase(self.rf_curve, time_on_production, M, tau)")
+    if [ast.unparse(n) for n in branch[1].body] != ["self.M_, self.tau_ = fit"] or [ast.unparse(n) for n in branch[1].orelse] != ["self.M_ = fit[0]", "self.tau_ = tau"]:
+        raise P.Untranslatable("fit: the fitted values are not stored as `self.M_, self.tau_ = fit` / `self.M_ = fit[0]; self.tau_ = tau`")
+    m.out.append("""(* ForecasterOnePhase.fit: the units the optimiser works in *)
+(* abs(float(x)) or 1.0 *)
+Definition fit_unit (last : R) : R := if Req_EM_T (Rabs last) 0 then 1 else Rabs last.
+(* cum_scaled = np.asarray(cum_production, dtype=np.float64) / m_unit *)
+Definition fit_cum_scaled (cum : list R) (m_unit : R) : list R := map (fun y => y / m_unit) cum.
+(* tau free: forecast(t, M, tau) = _forecast_cum_onephase(rf, t, M, tau * t_unit), per time point ; units = [m_unit, t_unit] *)
+Definition fit_model_free (rf : R -> R) (t_unit : R) (t : R) (M tau : R) : R := forecast_cum_onephase rf t M (tau * t_unit).
+(* np.asarray(p0) / units, np.asarray(b) / units for each bound ; fit * units *)
+Definition fit_to_optimizer_free (m_unit t_unit : R) (v : R * R) : R * R := (fst v / m_unit, snd v / t_unit).
+Definition fit_from_optimizer_free (m_unit t_unit : R) (v : R * R) : R * R := (fst v * m_unit, snd v * t_unit).
+(* tau given: forecast(t, M) = _forecast_cum_onephase(rf, t, M, tau) ; units = [m_unit] *)
+Definition fit_model_given (rf : R -> R) (tau : R) (t : R) (M : R) : R := forecast_cum_onephase rf t M tau.
+Definition fit_to_optimizer_given (m_unit v : R) : R := v / m_unit.
+Definition fit_from_optimizer_given (m_unit v : R) : R := v * m_unit.
+""")
     return m
 
 
